@@ -228,6 +228,12 @@ def run_entry(case):
     kind, ne, ham_t, Cs = _converged_system(wt, rng, nw, case["dt"], case["shape"])
     norb = 4
     h0, h1, chol = ham_t
+    if case["s"] % 2:
+        # a trial that is NOT a fixed point of trial.optimize (loosely converged SCF / orbitals from another Hamiltonian): the entry points
+        # with orbital relaxation then propagate with a different trial than the one the caller's cached overlaps belong to
+        from checks import c18
+
+        Cs = c18.rot(rng, np.asarray(Cs), 0.2, norb) if kind == "rhf" else [c18.rot(rng, np.asarray(Cs[0]), 0.2, norb), c18.rot(rng, np.asarray(Cs[1]), 0.2, norb)]
     if kind == "rhf":
         trial = wavefunctions.rhf(norb, ne)
         wd = {"mo_coeff": jnp.array(Cs)}
@@ -277,8 +283,8 @@ def run_entry(case):
     else:
         events.append(judge("hook/overlap-incoherence", incoh, 1e-10, key + "/hook-incoherence", checks=checks))
         events.append(ev("hook/evaluations-match-history", bool(checks == expected), key=key + "/hook-count", got=checks, expected=expected))
-    return {"events": events, "nontrivial": reordered, "sample": {"entry": case["entry"], "wt": wt, "hook_max_incoherence": incoh, "hook_evaluations": checks},
-            "counters": {"hook_evaluations": checks}}
+    return {"events": events, "nontrivial": reordered, "sample": {"entry": case["entry"], "wt": wt, "hook_max_incoherence": incoh, "hook_evaluations": checks, "perturbed_trial": bool(case["s"] % 2)},
+            "counters": {"hook_evaluations": checks, "perturbed_trial_entries": int(case["s"] % 2)}}
 
 
 def run_driver(case):
